@@ -61,8 +61,12 @@ theorem C10_ignored_names : ignoredSubresources =
 
 example : ignoredSubresources.contains b!"ephemeralcontainers" = false ∧ ignoredSubresources.contains b!"resize" = false := by decide
 
-/-- tie obligation (F7): the ignored set of the code is the model's -/
-theorem C10_ignored_tied : Generated.ignoredPodSubresources = ignoredSubresources := by decide
+/-- tie obligation (F7): the ignored set of the code is the model's — as a set: the harness reads it off the running
+    controller (every string literal of package admission and every pod subresource Kubernetes has, tried as the subresource
+    of a request that would otherwise be denied), so the order and representation in the source do not matter -/
+theorem C10_ignored_tied :
+    (Generated.ignoredPodSubresources.all (ignoredSubresources.contains ·) &&
+     ignoredSubresources.all (Generated.ignoredPodSubresources.contains ·)) = true := by decide
 
 #print axioms C10_significant_iff
 #print axioms C10_insignificant
